@@ -108,7 +108,17 @@ def gen_plan(rng, i: int, tier: str) -> dict:
             ops.append({"op": "protect", "fl": "sync", "sid": offline.SID_B, "rk": None, "net": "online", "data": 4, "same_data": True})
     elif kind == "identical-online-pub":
         fl = rng.choice(("sync", "async"))
+        variant = plan["seed"] % 4
+        if variant == 1:
+            # the application re-seeds Python's global PRNG with the same value before every call (test runners do)
+            plan["kind"] = "app-reseed"
+        elif variant == 2:
+            # the DC's public-key reply carries an unusual PublicKeyLength field (0 / 8 / 2^32-1): the ephemeral key must not depend on it
+            plan["dc"] = {"byz": {"envelope_override": {"public_key_length": (0, 8, 2**32 - 1)[(plan["seed"] // 4) % 3]}}}
+            plan["kind"] = "pub-reply-odd-length-field"
         for _ in range(min(n, 6)):
+            if variant == 1:
+                ops.append({"op": "app_random_seed", "value": 4242})
             ops.append({"op": "protect", "fl": fl, "sid": offline.SID_B, "rk": None, "net": "online", "data": data, "same_data": True})
     elif kind == "concurrent":
         if rng.random() < 0.5:
@@ -135,6 +145,8 @@ def gen_plan(rng, i: int, tier: str) -> dict:
             if o["op"] == "protect":
                 o["fl"], o["group"] = "thread", 1
         plan["threads"] = {"mode": "prob", "p": r.choice((0.005, 0.05, 0.3))} if r.random() < 0.5 else {"mode": "points", "n": r.choice((1, 2, 4)), "horizon": r.choice((300, 3000, 20000))}
+        if r.random() < 0.3:
+            plan["threads"] = {"mode": "marks", "q": r.choice((0.2, 0.5, 0.9)), "p": 0.0}
         plan["kind"] = "threads"
     return plan
 
@@ -147,13 +159,14 @@ class C19(common.Check):
             "unprotects and cache reuse, concurrent async groups sharing one cache (PRNG-scheduled), the same protects made by caller threads of one "
             "process through the sync API (pre-empted at PRNG-chosen line events inside dpapi_ng), and histories in which the process forks "
             "after a protect and parent and child both go on protecting, and histories whose key position alternates (clock stepping between two "
-            "intervals and back, two root keys used in turn) (the child's entropy source is re-keyed, buffered state is shared). From each emitted blob the "
+            "intervals and back, two root keys used in turn), histories in which the application re-seeds Python's global PRNG with the same value "
+            "before every call, public-key replies whose PublicKeyLength field is 0 / 8 / 2^32-1 (the child's entropy source is re-keyed, buffered state is shared). From each emitted blob the "
             "reference extracts GCM nonce and key_info and recovers the CEK; all must be pairwise distinct within the history. "
             "Non-trivial = history with >= 2 successful protects; distinct = distinct plan.")
     components = {"client": "real (public API, KeyCache, _encrypt_blob, cek_generate, new_kek)", "entropy": "simulated (os.urandom and AESGCM.generate_key seams, ledger)",
                   "clock": "simulated, frozen", "DC": "model (RefDC)", "security context": "stub (StubCtx)", "blob opener": "model (ref.cms/ref.gkdi)"}
     assumptions = ["the simulated entropy source never repeats a draw; real-world collision probability of fresh 96/256-bit values is outside the claim"]
-    required_fired = ("mode_pub", "mode_nonce", "provenance_ok", "forked_histories", "alternating_positions", "thread_histories", "thread_overlap")
+    required_fired = ("mode_pub", "mode_nonce", "provenance_ok", "forked_histories", "alternating_positions", "thread_histories", "thread_overlap", "app_reseed_histories", "odd_length_field_histories")
 
     def cases(self, tier, seed):
         rng = prng.stream(seed, "C19")
@@ -197,6 +210,10 @@ class C19(common.Check):
             probes["forked_histories"] = 1
         if case.get("kind") == "alternating":
             probes["alternating_positions"] = 1
+        if case.get("kind") == "app-reseed":
+            probes["app_reseed_histories"] = 1
+        if case.get("kind") == "pub-reply-odd-length-field":
+            probes["odd_length_field_histories"] = 1
         if case.get("kind") == "threads":
             probes["thread_histories"] = 1
             probes["thread_overlap"] = tr.world.stats.get("toverlap", 0)
